@@ -17,8 +17,11 @@ def make_core(nphases=1, memtype="SDR", bankbits=1, rowbits=11, colbits=8, datab
                       read_latency=read_latency, write_latency=write_latency, nranks=nranks)
     geom = GeomSettings(bankbits=bankbits, rowbits=rowbits, colbits=colbits)
     t = dict(tRP=2, tRCD=2, tWR=2, tWTR=2, tREFI=100, tRFC=4, tFAW=None, tCCD=1, tRRD=None, tRC=5, tRAS=3, tZQCS=None)
-    if timing: t.update(timing)
-    tim = TimingSettings(**t) if not isinstance(timing, TimingSettings) else timing
+    if isinstance(timing, TimingSettings):
+        tim = timing
+    else:
+        if timing: t.update(timing)
+        tim = TimingSettings(**t)
     cs = ControllerSettings(cmd_buffer_depth=cmd_buffer_depth, cmd_buffer_buffered=buffered, read_time=read_time,
                             write_time=write_time, with_auto_precharge=auto_precharge, refresh_postponing=postponing,
                             with_refresh=with_refresh, refresh_zqcs_freq=zqcs_freq, bank_byte_alignment=bank_byte_alignment)
@@ -28,6 +31,14 @@ def make_core(nphases=1, memtype="SDR", bankbits=1, rowbits=11, colbits=8, datab
             self.submodules.controller = LiteDRAMController(phy, geom, tim, clk_freq, cs)
             self.submodules.crossbar = LiteDRAMCrossbar(self.controller.interface)
             self.ports = [self.crossbar.get_port(**(port_kwargs or {})) for _ in range(nports)]
+            # harness-side only: remember the per-bank arbiters the crossbar creates while finalizing (they are anonymous submodules)
+            xb = self.crossbar; orig = xb.do_finalize
+            def do_finalize_and_capture():
+                orig()
+                from migen.genlib.roundrobin import RoundRobin
+                xb.verif_arbiters = [m for (_, m) in xb._submodules if isinstance(m, RoundRobin)]
+            xb.do_finalize = do_finalize_and_capture
+            xb.finalize()
             self.dfi = self.controller.dfi
             self.phy_settings = phy; self.geom = geom; self.timing = tim; self.csettings = cs
     return Core()
